@@ -3,6 +3,7 @@ package main
 import (
 	"context"
 	"fmt"
+	"os"
 	"runtime"
 	"strings"
 	"sync/atomic"
@@ -47,6 +48,7 @@ type leaderRun struct {
 	issued  int64
 	done    atomic.Int64 // client callbacks completed (ok or error)
 	nIssued int64
+	sessionCalls atomic.Int64 // CreateSession calls of the harness that have not returned
 	nextCtx context.Context // the context of the next write (a client that may give up)
 	refused bool            // a generated request was not accepted by the leader: the schedule cannot be followed
 }
@@ -86,9 +88,11 @@ func (lr *leaderRun) write(req *proto.WriteRequest) {
 	expected := lr.issued + 1
 	if len(req.Puts) == 1 && strings.HasPrefix(req.Puts[0].Key, "__oxia/session/") {
 		lr.nIssued++
+		lr.sessionCalls.Add(1)
 		go func() {
 			lr.lc.CreateSession(&proto.CreateSessionRequest{Shard: shardId, SessionTimeoutMs: 300000, ClientIdentity: "cli"})
 			lr.done.Add(1)
+			lr.sessionCalls.Add(-1)
 		}()
 		waitLive(lr.n, stepTimeout, func() bool { _, a := lr.n.walf.current().heads(); return a >= expected })
 	} else {
@@ -210,12 +214,45 @@ func (lr *leaderRun) macro(s step) string {
 func (lr *leaderRun) close() {
 	// LeaderController.Close closes the DB without waiting for an acknowledgement that a cursor is still
 	// processing (which may apply a write): let the acks that were sent be consumed first.
-	waitFor(stepTimeout, lr.acksConsumed)
+	// A CreateSession whose write has just been applied registers its session (a goroutine with an expiry
+	// timer) without looking whether the session manager has been closed meanwhile: such a session outlives the
+	// controller, and when it expires (minutes later) its cleanup lists keys through the closed controller
+	// (lc.db == nil) in a goroutine of its own - the process dies. So no CreateSession may be between "write
+	// applied" and "session registered" when the controller is closed.
+	if os.Getenv("C07_NO_SETTLE") == "" {
+		waitFor(stepTimeout, func() bool { return lr.acksConsumed() && createSessionSettled() })
+	} else {
+		waitFor(stepTimeout, lr.acksConsumed)
+	}
 	if lr.lc != nil {
 		lr.lc.Close()
 	}
 	lr.n.g.openAll()
+	// the calls the harness made itself have returned before the controller is forgotten
+	waitFor(stepTimeout, func() bool { return lr.sessionCalls.Load() == 0 })
 	lr.n.closeFactories()
+}
+
+// createSessionSettled: every CreateSession in progress is still waiting for its write (blocked on the channel
+// of writeBlock); a goroutine that has been handed the response is runnable, not "chan receive".
+func createSessionSettled() bool {
+	buf := make([]byte, 1<<20)
+	n := runtime.Stack(buf, true)
+	for _, g := range strings.Split(string(buf[:n]), "\n\n") {
+		if strings.Contains(g, "sessionManager).createSession") {
+			if !strings.Contains(g, "leaderController).writeBlock") || !strings.HasPrefix(g[strings.Index(g, "[")+1:], "chan receive") {
+				return false
+			}
+		}
+	}
+	return true
+}
+
+// leakedSessions counts session goroutines that exist although no controller of the harness is open.
+func leakedSessions() int {
+	buf := make([]byte, 1<<20)
+	n := runtime.Stack(buf, true)
+	return strings.Count(string(buf[:n]), "server.(*session).waitForHeartbeats(")
 }
 
 func runLeaderCase(o *hx.Out, p params) (string, int64) {
